@@ -1,7 +1,6 @@
 package memfs
 
 import (
-	"os"
 	"strings"
 
 	"github.com/goatcms/goatcore/varutil/goaterr"
@@ -25,23 +24,6 @@ func removeNodeByNodePath(d *Dir, nodePath []string, emptyOnly bool) (err error)
 	if dirNode, err = getDirByPathNodes(d, dirNodePath); err != nil {
 		return err
 	}
-	if emptyOnly {
-		var (
-			ok       bool
-			lastNode os.FileInfo
-			lastDir  *Dir
-		)
-		if lastNode, err = dirNode.getNode(lastNodeName); err != nil {
-			return err
-		}
-		if lastDir, ok = lastNode.(*Dir); !ok {
-			return dirNode.removeNodeByName(lastNodeName)
-		}
-		if len(lastDir.nodes) != 0 {
-			return goaterr.Errorf("Can not remove empty node")
-		}
-		verifhook.Yield("memfs.remove.gap")
-		return dirNode.removeNodeByName(lastNodeName)
-	}
-	return dirNode.removeNodeByName(lastNodeName)
+	verifhook.Yield("memfs.remove.gap")
+	return dirNode.removeNodeByName(lastNodeName, emptyOnly)
 }
